@@ -300,10 +300,12 @@ def elemAt (items : List Node) (i : Int) (c : Ctx) : Gen NC :=
     | .error e => Gen.fail e
   else Gen.nil
 
+/-- KEY on a set: the first member whose `str()` is the key text (fixed code: an integer member
+is found by its digits, as integer keys of a dict are). -/
 def keyOnSet (k : Str) (ms : List Key) (c : Ctx) : Gen NC :=
-  if ms.contains (.str k) then
-    Gen.one ((Key.str k).toNode, c.child (.member (.str k)) (.member (.str k)) (escSection k))
-  else Gen.nil
+  match ms.find? (fun m => m.text == k) with
+  | some m => Gen.one (m.toNode, c.child (.member m) (.member m) (escSection k))
+  | none => Gen.nil
 
 /-- `_get_nodes_by_key` (the pass-through over the elements of a list re-enters the dispatcher on
 the same KEY segment, hence this function). -/
